@@ -546,7 +546,10 @@ fn hash<T: ?Sized + Hash>(t: &T) -> u64 {
     let mut hasher = CaoHasher::default();
     t.hash(&mut hasher);
     let result = hasher.finish();
-    debug_assert_ne!(result, 0, "0 hash is reserved");
+    // 0 marks an empty bucket, a key that happens to hash to it is moved to another value
+    if result == 0 {
+        return 1;
+    }
     result
 }
 
